@@ -40,7 +40,8 @@ Abs(x) == IF x < 0 THEN 0 - x ELSE x
 (* fields of the prediction that must be equal to the observation *)
 Diff(p, o, fz) ==
     LET pres == IF p.res = "rendered" THEN "rendered" ELSE "silent" IN
-    IF pres # o.res THEN {"res"}
+    IF o.res = "unknown" THEN {}                      \* child process gave no observation
+    ELSE IF pres # o.res THEN {"res"}
     ELSE IF o.res # "rendered" THEN {}
     ELSE {f \in {"nf", "match", "bar", "total", "w", "pl", "pfx", "pn"} : p[f] # o[f]}
          \cup (IF p.match = "ell" /\ o.match = "ell" /\ p.k # o.k THEN {"k"} ELSE {})
@@ -65,7 +66,8 @@ Judge ==
         diff == IF p.cls \in {"ok", ""} THEN Diff(p, o, Ev.fz) ELSE {}
     IN  /\ obsPct' = (IF lastPct' = -1 THEN -1 ELSE IF o.res = "rendered" THEN o.pct ELSE obsPct)
         /\ IF broken = {} /\ diff = {}
-           THEN IF p.res = "rendered" THEN TLCSet(4, TLCGet(4) \cup {<<p.rung, p.nf, p.match, p.bar, p.pfx>>}) ELSE TRUE
+           THEN TLCSet(4, TLCGet(4) \cup {IF p.res = "rendered" THEN <<p.rung, p.nf, p.match, p.bar, p.pfx>>
+                                                                   ELSE <<0, 0, p.res, FALSE, "">>})
            ELSE /\ PrintT("BAD " \o ToJson([line |-> l, e |-> Ev.e, broken |-> broken, diff |-> diff,
                                            cls |-> p.cls, cols |-> cols,
                                            pred |-> [res |-> p.res, rung |-> p.rung, nf |-> p.nf, k |-> p.k,
